@@ -474,7 +474,8 @@ def _operand_check(ctx, b, fn, f, srcs, e):
 
 
 def r10_4(ctx, prog, crate):
-    tls = [s for s in prog.statics(crate) if "CURRENT_THREAD_INFO" in s["path"]]
+    from .common import tally_slot_statics
+    tls, _key = tally_slot_statics(prog, crate)
     if ctx.anchor("R10.4", "CURRENT_THREAD_INFO statics", tls, 1):
         ctx.check(all(s["thread_local"] for s in tls), "R10.4", ["slot-is-thread-local"],
                   "a CURRENT_THREAD_INFO static is not thread-local: %s" % [(s["path"], s["thread_local"]) for s in tls], "src/alloc.rs")
